@@ -1136,7 +1136,9 @@ impl Session {
 }
 
 fn num_messages_settled_by_disposition(first: u32, last: Option<u32>) -> u32 {
-    last.and_then(|last| last.checked_sub(first)).unwrap_or(0) + 1
+    last.and_then(|last| last.checked_sub(first))
+        .unwrap_or(0)
+        .saturating_add(1)
 }
 
 cfg_transaction! {
